@@ -507,7 +507,10 @@ func c15Main(seed uint64, n int, outDir, repo string) error {
 		{"return", "1"}, {"a++", "b"}, {"a", "++b"}, {"x = [1,\n2]", "y = [3,\n4]"},
 		// a first text that ends inside something unterminated: if it is accepted at all, it must not swallow the second
 		{"a = 1 /* note", "b = 2"}, {"/*", "b"}, {"a /*/", "b"}, {"a = 1 /* x *", "b = 2"}, {"a = \"open", "b = 2"}, {"a = `raw", "b = 2"}, {"a = 'c", "b = 2"}, {"a = 1 #", "b = 2"},
-		{"a = 1 //", "b = 2"}, {"a = 1 /* c */ /*", "b = 2"}, {"a = \"s\\", "b = 2"}, {"a = 1 /", "*b"}} {
+		{"a = 1 //", "b = 2"}, {"a = 1 /* c */ /*", "b = 2"}, {"a = \"s\\", "b = 2"}, {"a = 1 /", "*b"},
+		// a second text that starts with something only a file start would excuse: if it is accepted alone, it is accepted after a newline
+		{"y = 2", "\uFEFFx = 1"}, {"", "\uFEFFx = 1"}, {"\uFEFFy = 2", "\uFEFFx = 1"}, {"\uFEFFy = 2", "x = 1"}, {"y = 2", "\uFEFF"}, {"y = 2", "#!/usr/bin/env anko\nx = 1"},
+		{"y = 2", "\ufffex = 1"}, {"y = 2", "\u200bx = 1"}, {"y = 2", "\x00x = 1"}, {"y = 2", "\r\nx = 1"}, {"y = 2", "\u2028x = 1"}} {
 		cases = append(cases, c15Case{Kind: "pair", A: enc(pr[0]), B: enc(pr[1])})
 	}
 	cb, _ := json.Marshal(cases)
